@@ -245,7 +245,9 @@ def r2_key_tables(ctx):
     for d, ks in pr:
         ctx.check(ks == SCHEMA['private'], 'C14.R2', f'{func_label(mk)}|written:private', loc(mk, d), f'private fields written == schema', f'private fields written {sorted(ks)} != schema {sorted(SCHEMA["private"])}')
     mc = m('_make_config')
-    stores = {t.slice.value for a in walk_local(mc.node) if isinstance(a, ast.Assign) for t in a.targets if isinstance(t, ast.Subscript) and isinstance(t.value, ast.Name) and t.value.id == 'config' and isinstance(t.slice, ast.Constant)}
+    rets = [r.value.id for r in walk_local(mc.node) if isinstance(r, ast.Return) and isinstance(r.value, ast.Name)]
+    cfg_name = rets[0] if rets else None
+    stores = {t.slice.value for a in walk_local(mc.node) if isinstance(a, ast.Assign) for t in a.targets if isinstance(t, ast.Subscript) and isinstance(t.value, ast.Name) and t.value.id == cfg_name and isinstance(t.slice, ast.Constant)}
     ctx.check(stores == SCHEMA['config'], 'C14.R2', f'{func_label(mc)}|written:config', loc(mc, mc.node), f'config keys written == {sorted(SCHEMA["config"])}', f'config keys written {sorted(stores)} != schema')
     snap = corpus.func('repository', 'Repository.snapshot')
     body = _dict_literal_keys(snap.node, {'chunks', 'data'})
@@ -255,7 +257,9 @@ def r2_key_tables(ctx):
     data = _dict_literal_keys(snap.node, {'utc_timestamp'})
     ctx.floor('C14.R2', 'snapshot data literal', len(data))
     for d, ks in data:
-        extra = {t.slice.value for a in walk_local(snap.node) if isinstance(a, ast.Assign) for t in a.targets if isinstance(t, ast.Subscript) and isinstance(t.value, ast.Name) and t.value.id == 'snapshot_data' and isinstance(t.slice, ast.Constant)}
+        dst = enclosing_stmt(d)
+        dname = dst.targets[0].id if isinstance(dst, ast.Assign) and isinstance(dst.targets[0], ast.Name) else None
+        extra = {t.slice.value for a in walk_local(snap.node) if isinstance(a, ast.Assign) for t in a.targets if isinstance(t, ast.Subscript) and isinstance(t.value, ast.Name) and t.value.id == dname and isinstance(t.slice, ast.Constant)}
         ctx.check(SCHEMA['data.required'] <= ks and (ks | extra) <= SCHEMA['data'], 'C14.R2', f'{func_label(snap)}|written:data', loc(snap, d), f'snapshot data keys written {sorted(ks | extra)} within schema', f'snapshot data keys {sorted(ks | extra)} not within schema {sorted(SCHEMA["data"])}')
     files = _dict_literal_keys(snap.node, {'path', 'chunks'})
     ctx.floor('C14.R2', 'file record literals', len(files))
@@ -284,7 +288,14 @@ def r2_key_tables(ctx):
     ik = m('_instantiate_key')
     reads = {n.slice.value for n in ast.walk(ik.node) if isinstance(n, ast.Subscript) and isinstance(n.slice, ast.Constant) and isinstance(n.value, ast.Name) and n.value.id == 'key'}
     ctx.check(reads <= SCHEMA['key'] and reads, 'C14.R2', f'{func_label(ik)}|read:key', loc(ik, ik.node), f'key fields read {sorted(reads)} within schema', f'key fields read {sorted(reads)} not within schema')
-    preads = {n.slice.value for n in ast.walk(ik.node) if isinstance(n, ast.Subscript) and isinstance(n.slice, ast.Constant) and isinstance(n.value, ast.Name) and n.value.id == 'private'}
+    # the local that holds the (decrypted) private section: the value returned under 'private'
+    pname = None
+    for d in ast.walk(ik.node):
+        if isinstance(d, ast.Dict):
+            for k, v in zip(d.keys, d.values):
+                if isinstance(k, ast.Constant) and k.value == 'private' and isinstance(v, ast.Name):
+                    pname = v.id
+    preads = {n.slice.value for n in ast.walk(ik.node) if isinstance(n, ast.Subscript) and isinstance(n.slice, ast.Constant) and isinstance(n.value, ast.Name) and n.value.id == pname}
     props = corpus.cls('repository', 'RepositoryProps')
     for f in props.methods.values():
         preads |= {n.slice.value for n in ast.walk(f.node) if isinstance(n, ast.Subscript) and isinstance(n.slice, ast.Constant) and isinstance(n.value, ast.Attribute) and n.value.attr == 'private'}
